@@ -60,6 +60,17 @@ def rule_units(ck, rid="C15.R1"):
                             "ceil" not in canon(on_default(r)) and "round(" not in canon(on_default(r)) for r in dflt)
     ck.require(ok, rid, f, dflt[0].stmt if dflt else "return int(ts)", ok="period index = floor of the timestamp in periods", bad="the default conversion must truncate (floor), not round",
                sink="timestamp-floor")
+    # ... and the default path is the one the converters take: the flag defaults to False and no caller in the package sets it
+    dv = f.defaults().get("round_up")
+    ck.require(dv is not None and isinstance(dv, ast.Constant) and dv.value is False, rid, f, dv if dv is not None else "round_up=False",
+               ok="round_up defaults to False", bad="the rounding flag no longer defaults to False: arrival / departure / start are ceilings, not floors, of the times in periods",
+               sink="timestamp-default", positive=True)
+    from ..rules import who_calls
+    for g, c in who_calls(repo, "_datetime_to_timestamp"):
+        if g is None or "/tests/" in g.module:
+            continue
+        bb = bind_args(c, f, method=False)
+        ck.require("round_up" not in bb, rid, g, c, ok="converted with the default (floor)", bad="a converter asks for the rounded-up period index", sink=f"timestamp-caller:{g.qual}", positive=True)
     for r in dflt:
         e = fl.expand(r.expr, r)
         good = "timestamp()" in canon(e) and "period" in canon(e)
